@@ -67,9 +67,11 @@ class BaseMQTTGateway(Gateway):
         Return a mysensors command string.
         """
         topic_levels = topic.split("/")
-        topic_levels = not_prefix = topic_levels[-5:]
-        prefix_end_idx = topic.find("/".join(not_prefix)) - 1
-        prefix = topic[:prefix_end_idx]
+        if len(topic_levels) < 6:
+            return None
+        # The prefix is everything before the last five levels.
+        prefix = "/".join(topic_levels[:-5])
+        topic_levels = topic_levels[-5:]
         if prefix != self.tasks.transport.in_prefix:
             return None
         if qos and qos > 0:
